@@ -87,11 +87,11 @@ def call_time_functions(prog: Program):
     seen = {}
     frontier = [(f, [f.qualname]) for f in entry_functions(prog)]
     while frontier:
-        f, chain = frontier.pop()
+        f, chain = frontier.pop(0)  # breadth first: the set reached within the bound does not depend on enumeration order
         if f.qualname in seen or len(chain) > 7:
             continue
         seen[f.qualname] = chain
-        for cn in E.callees(prog, f):
+        for cn in sorted(E.callees(prog, f)):
             if cn in factories:
                 continue
             g = prog.functions.get(cn)
@@ -668,10 +668,14 @@ def run(prog: Program, rep: Report, tier: str):
     r12_10(prog, rep)
     rep.rule("R12.9", "memoised functions do not remember answers reached by swallowing transient resource errors", floor=30)
     r12_9(prog, rep)
+    rep.rule("R12.11", "no answer is taken from the memo typing keeps on the ForwardRef objects it shares between modules", floor=2)
+    from . import c11 as _c11
+
+    _c11.shared_reference_memo(prog, rep, "R12.11")
     rep.rule("R12.1", "no call-time state write that is read back (frozen latches excepted)", floor=3)
     rep.rule("R12.2", "memoised mutable results do not escape through routine/API returns; no memoised one-shot objects", floor=40)
     rep.rule("R12.3", "key granularity of memoised functions (triaged candidates)", floor=5)
-    rep.rule("R12.4", "memoised functions are free of ambient reads", floor=30)
+    rep.rule("R12.4", "memoised functions are free of ambient reads", floor=25)
     rep.rule("R12.5", "memoised decoders receive hashable carriers (shared with R14.3)", floor=1)
     rep.rule("R12.6", "no mutable defaults; no module-level container mutated from a function (slotted guard excepted)", floor=1)
     rep.rule("R12.7", "no unmarshal/serdes path mutates its input", floor=25)
